@@ -503,6 +503,22 @@ impl RemoteFrontDoor {
             return;
         }
         let n = msgs.len() as u32;
+        // what the client has to end up with: the message count of every lifecycle of the (deterministic) final table,
+        // except lifecycles that consist of control requests only - the server does not announce those by design
+        let reference = run_detector(&[msgs.clone()], false);
+        if reference.detector_panic.is_some() {
+            return; // C05's business
+        }
+        let mut expected_counts: Vec<u32> = vec![];
+        for l in &reference.table {
+            let of_lc: Vec<&DltMessage> = reference.out[0].iter().filter(|m| m.lifecycle == l.id).collect();
+            if !of_lc.is_empty() && of_lc.iter().all(|m| m.is_ctrl_request()) {
+                continue;
+            }
+            expected_counts.push(of_lc.len() as u32);
+        }
+        expected_counts.sort_unstable();
+        let expected_sum: u64 = expected_counts.iter().map(|v| *v as u64).sum();
         let mut cl = match Client::connect(port) {
             Some(c) => c,
             None => {
@@ -534,16 +550,24 @@ impl RemoteFrontDoor {
         // ... and then until the client's table accounts for all of them (bounded: 10 s of further updates)
         let t1 = Instant::now();
         let mut sum: u64 = cl.lifecycle_counts.values().map(|v| *v as u64).sum();
-        while sum != n as u64 && t1.elapsed() < Duration::from_secs(10) {
+        let client_counts = |cl: &Client| -> Vec<u32> {
+            let mut v: Vec<u32> = cl.lifecycle_counts.values().copied().collect();
+            v.sort_unstable();
+            v
+        };
+        while (sum != expected_sum || client_counts(&cl) != expected_counts) && t1.elapsed() < Duration::from_secs(10) {
             let _ = cl.poll();
             sum = cl.lifecycle_counts.values().map(|v| *v as u64).sum();
         }
         rep.inc("remote_tables_checked");
         rep.add("remote_lifecycles_seen", cl.lifecycle_counts.len() as u64);
-        if sum != n as u64 {
+        if expected_sum != n as u64 {
+            rep.inc("remote_tables_with_control_request_only_lifecycles");
+        }
+        if client_counts(&cl) != expected_counts {
             let mut t: Vec<(u32, u32)> = cl.lifecycle_counts.iter().map(|(k, v)| (*k, *v)).collect();
             t.sort_unstable();
-            rep.violation("remote:client-table-counts-do-not-add-up", format!("all {} messages of the file were announced (FileInfo), but 10 s later the lifecycle table received by the client accounts for {} messages: {:?}", n, sum, t), rp());
+            rep.violation("remote:client-table-counts-do-not-add-up", format!("all {} messages of the file were announced (FileInfo), but 10 s later the lifecycle table received by the client (id, messages) is {:?}; the final table of the detector has the message counts {:?} (lifecycles of control requests only are not announced)", n, t, expected_counts), rp());
             if let Some(s) = self.srv.take() {
                 s.kill();
             }
